@@ -43,5 +43,6 @@ open CaddyModel.C14
 #print axioms provision_alone_after_interrupted_renewal_mismatched_old_code
 #print axioms ca_write_order_matches_source
 #print axioms autosave_program_matches_source
+#print axioms resume_read_matches_source
 #print axioms inPlace_store_not_atomic
 #print axioms resume_before_envfiles_fails
